@@ -274,7 +274,7 @@ MAY_BE_REJECTED = {"t_goargs", "t_byvalue", "t_global"}
 TEMPLATES = [t_goargs, t_counter, t_counter, t_cond, t_timeout, t_order, t_loopspawn, t_helper, t_handoff, t_signalled, t_owntypes, t_bcast, t_byvalue, t_byvalue, t_byvalue, t_poll, t_global, t_global, t_loopvar]
 
 
-def package(seed, nfuncs=12):
+def package(seed, nfuncs=14):
     r = random.Random(seed)
     fns = []
     for k in range(nfuncs):
@@ -284,7 +284,7 @@ def package(seed, nfuncs=12):
         r.force_var_mutex = (k == 2)
         r.global_variant = (seed + k) % 2
         r.byvalue_variant = (seed + k) % 3
-        t = [t_timeout, t_goargs, t_counter, t_signalled, t_owntypes, t_bcast, t_byvalue, t_poll, t_global, t_loopvar, t_byvalue][k] if k < 11 else r.choice(TEMPLATES)
+        t = [t_timeout, t_goargs, t_counter, t_signalled, t_owntypes, t_bcast, t_byvalue, t_poll, t_global, t_loopvar, t_byvalue, t_cond, t_handoff][k] if k < 13 else r.choice(TEMPLATES)
         src, det = t(r, "c%d" % k)
         fns.append(("c%d" % k, t.__name__, src, det))
     body = "\n".join(f[2] for f in fns)
